@@ -409,8 +409,13 @@ PRUNES = [
     ("channel-aa", dict(channels=["aa"])),
     ("measurement-meas1", dict(measurements=["meas1"])),
     ("several", dict(modifiers=["h1", "lumi"], modifier_types=["shapefactor"], samples=["qcd"], channels=["zz"], measurements=["meas2"])),
+    # a type that occurs ONLY on names it shares with a later-sorting type (histosys 'h1' is also a normsys; histosys 'n1' also a normsys)
+    ("modifier-type-hidden-behind-a-shared-name", dict(modifier_types=["histosys"]), "SHARED"),
     ("nothing", dict()),
 ]
+SHARED = {"channels": [("c1", 2, [("sig", [("normfactor", "mu")]), ("bkg", [("normsys", "syst"), ("histosys", "syst")])])],
+          "measurements": [("meas", "mu", ["syst"])], "normfactor_cfg": []}
+SKELS = {"BIG": BIG, "SHARED": SHARED}
 BAD_PRUNES = [("unknown-modifier", dict(modifiers=["nope"])), ("unknown-type", dict(modifier_types=["histosys2"])), ("unknown-sample", dict(samples=["nope"])),
               ("unknown-channel", dict(channels=["c9"])), ("unknown-measurement", dict(measurements=["nope"])), ("type-absent-from-workspace", dict(modifier_types=["code9"]))]
 RENAMES = [
@@ -435,7 +440,7 @@ def _whole(got, want, ordered=True):
     return z3.And(*zs) if zs else True
 
 
-def run_prune_rename(T, op, name, kwargs, bad):
+def run_prune_rename(T, op, name, kwargs, bad, skel="BIG"):
     key = f"{WS}::Workspace.{op}"
     eng = T.engine(policy())
     T.under_contract(eng, key)
@@ -443,7 +448,7 @@ def run_prune_rename(T, op, name, kwargs, bad):
     box = {}
 
     def thunk():
-        doc, _ = build_workspace(BIG)
+        doc, _ = build_workspace(SKELS[skel])
         w = make_ws(eng, doc)
         box.update(snap=snapshot(w), w=w)
         res = eng.call(eng.getattr(w, op), [], _copy.deepcopy(kwargs))
@@ -455,7 +460,7 @@ def run_prune_rename(T, op, name, kwargs, bad):
         return res, None
     results = eng.explore(thunk)
     T.absorb(eng, results)
-    meta = dict(op=op, selection=name)
+    meta = dict(op=op, selection=name, skeleton=skel)
     for k, r in enumerate(results):
         sfx = f"{name},path{k}"
         if bad:
@@ -573,10 +578,10 @@ def tasks(tier):
     for op, sels, bads in (("prune", PRUNES, BAD_PRUNES), ("rename", RENAMES, BAD_RENAMES)):
         def mk(op, sels, bads):
             def task(T):
-                for n, kw in sels:
-                    run_prune_rename(T, op, n, kw, False)
-                for n, kw in bads:
-                    run_prune_rename(T, op, n, kw, True)
+                for n, kw, *sk in sels:
+                    run_prune_rename(T, op, n, kw, False, *(sk or ["BIG"]))
+                for n, kw, *sk in bads:
+                    run_prune_rename(T, op, n, kw, True, *(sk or ["BIG"]))
                 T.bounded_block(f"skeleton-bounded symbolic execution of Workspace.{op}", f"{len(sels)} selections + {len(bads)} refused selections on a 3-channel, 2-measurement workspace; numbers symbolic", len(sels) + len(bads), 0)
             return task
         out.append((op, mk(op, sels, bads)))
@@ -679,9 +684,14 @@ def replay(r):
     if op in ("prune", "rename"):
         for sels, specf, isbad in ((PRUNES if op == "prune" else RENAMES, prune_spec if op == "prune" else rename_spec, False),
                                    (BAD_PRUNES if op == "prune" else BAD_RENAMES, None, True)):
-            for n, kw in sels:
+            for n, kw, *sk in sels:
+                if sk:
+                    doc_s = concrete_workspace(SKELS[sk[0]], 3)
+                    w_s = pyhf.Workspace(doc_s)
+                else:
+                    doc_s, w_s = doc, w
                 try:
-                    out = getattr(w, op)(**_copy.deepcopy(kw))
+                    out = getattr(w_s, op)(**_copy.deepcopy(kw))
                     refused = False
                 except pyhf.exceptions.InvalidWorkspaceOperation:
                     refused = True
@@ -693,7 +703,7 @@ def replay(r):
                     continue
                 if refused:
                     continue
-                s = _whole(dict(out), specf(doc, **kw))
+                s = _whole(dict(out), specf(doc_s, **kw))
                 if s is False or (s is not True and not z3.is_true(z3.simplify(s))):
                     bad[f"{n}:result"] = "differs from the specification"
                 if op == "rename":
